@@ -22,11 +22,15 @@
   * `C14_method_noexcept_value`: one position end to end — for `noexcept ( content )` after a
     method's parameter list, with properly nested content, the `noexcept` field holds exactly
     the content tokens: the parentheses are left out and nothing else is.
+  * `C14_enumerator_values`: a second position end to end, for lists of any length: every
+    enumerator's value holds exactly the tokens written after its `=`, up to the `,` or `}` that
+    ends it, and an enumerator without `=` has no value — whatever its neighbours hold.
   Which terminator set each position uses and values outside `TopLevel` (the `<` heuristic):
   oracle `positions` and correspondence `parse[values]` (named; not proof).
 -/
 import CxxModel.Theorems.Stream
 import CxxModel.Theorems.MethodEnd
+import CxxModel.Theorems.EnumList
 import CxxModel.Tables
 namespace Cxx
 
@@ -90,5 +94,16 @@ theorem C14_method_noexcept_value (env : Env) (G : Nat) (c : P.Core) (m : Functi
     ∃ (w' : World) (v : Value), interp env (P.methodEndBody (G + 1) c m) w = (w', .ok (.inl { m with noexcept := some v })) ∧
       w'.buf = b' ∧ SameParse w w' ∧ v.tokens.map (fun t => (t.type, t.value)) = content.map Tok.tv :=
   methodEndBody_noexcept env G c m w kw op b1 b2 b' content closer h1 hk h2 ho hy hn hc hG
+
+
+theorem C14_enumerator_values (env : Env) (hp : RulesProgress env.cfg = true) (F : Nat) (pre : List EItem) (last : EItem)
+    (more : List Tok) (w : World) (bEnd : Buf)
+    (hall : ∀ i ∈ pre, i.OK ∧ i.sep.type = "," ∧ i.toks.length + 2 ≤ F)
+    (hlast : last.OK ∧ last.sep.type = "}" ∧ last.toks.length + 2 ≤ F)
+    (hy : Yields env.cfg w.buf ((pre ++ [last]).flatMap EItem.toks ++ more) bEnd) (hF : pre.length + 1 ≤ F) :
+    ∃ (w' : World) (vs : List Enumerator), interp env (P.parseEnumeratorList F) w = (w', .ok vs) ∧
+      vs.map Enumerator.nv = (pre ++ [last]).map EItem.nv := by
+  obtain ⟨w', vs, _, h, hnv, _⟩ := enumList_last env hp F pre last more w bEnd hall hlast hy hF
+  exact ⟨w', vs, h, hnv⟩
 
 end Cxx
